@@ -306,6 +306,7 @@ func wireH1(m *h1Msg, isRequest bool, chunks [][]byte) []byte {
 		b.Write(m.body)
 	default:
 		b.WriteString("\r\n")
+		b.Write(m.body) // framed by an explicit Content-Length field of the message (or empty)
 	}
 	return b.Bytes()
 }
@@ -375,16 +376,60 @@ type xReq struct {
 
 const xWait = 2500 * time.Millisecond
 
-// exchange sends the request, lets the upstream answer with resp, returns what the upstream saw and what the client got
-func (s *xSide) exchange(req, resp *xReq) (gotReq string, gotResp string) {
-	gotReq, gotResp = "lost", "lost"
-	lastReqShow, lastRespShow = "lost", "lost"
-	method := ""
+type xGot struct {
+	st string // ok | lost | reset:<code> | …
+	h2 *h2Msg
+	h1 *h1Msg
+}
+
+func (g *xGot) tok(isRequest bool) string {
+	switch {
+	case g.h2 != nil && g.st == "ok":
+		return h2GotTok("ok", g.h2)
+	case g.h1 != nil && g.st == "ok":
+		return h1GotTok(g.h1, isRequest)
+	}
+	return g.st
+}
+
+func stripDate(sent *xMsg, g *xGot) bool {
+	for _, kv := range sent.fields {
+		if kv[0] == "date" {
+			return false
+		}
+	}
+	strip := func(fs [][2]string) ([][2]string, bool) {
+		var f [][2]string
+		hit := false
+		for _, kv := range fs {
+			if strings.EqualFold(kv[0], "date") {
+				hit = true
+				continue
+			}
+			f = append(f, kv)
+		}
+		return f, hit
+	}
+	hit := false
+	if g.h2 != nil {
+		g.h2.fields, hit = strip(g.h2.fields)
+	}
+	if g.h1 != nil {
+		g.h1.fields, hit = strip(g.h1.fields)
+	}
+	return hit
+}
+
+// exchangeX sends the request, lets the upstream answer with resp, returns what the upstream saw and what the client got
+// (a Date added to a response that had none is removed again and counted: RFC 7231 7.1.1.2 obliges a recipient with a
+// clock to add it)
+func (s *xSide) exchangeX(c *hx.Ctx, kind string, mreq, mresp *xMsg, req, resp *xReq) (string, string) {
+	gq, gr := &xGot{st: "lost"}, &xGot{st: "lost"}
+	method := mreq.method
 	var h2c *h2Raw
 	var h1c net.Conn
 	var err error
 	if s.down == "Http2" {
-		method = req.h2.pseudoVal(":method")
 		h2c, err = h2RawDial(s.front.Addr().String())
 		if err != nil {
 			panic(err)
@@ -392,7 +437,6 @@ func (s *xSide) exchange(req, resp *xReq) (gotReq string, gotResp string) {
 		defer h2c.close()
 		go h2c.writeMsg(1, req.h2)
 	} else {
-		method = req.h1.start[0]
 		h1c, err = net.Dial("tcp", s.front.Addr().String())
 		if err != nil {
 			panic(err)
@@ -401,45 +445,57 @@ func (s *xSide) exchange(req, resp *xReq) (gotReq string, gotResp string) {
 		h1c.SetDeadline(time.Now().Add(2 * xWait))
 		go h1c.Write(wireH1(req.h1, true, req.h1chunks))
 	}
-	// upstream
-	answered := false
+	// the client side collects concurrently: a request MOSN refuses (reset / 4xx) never reaches the upstream
+	cres := make(chan *xGot, 1)
+	go func() {
+		if s.down == "Http2" {
+			m, st := h2c.collect(1, 2*xWait)
+			cres <- &xGot{st: st, h2: m}
+			return
+		}
+		m, err := readH1(bufio.NewReader(h1c), false, method == "HEAD")
+		if err == nil {
+			cres <- &xGot{st: "ok", h1: m}
+		} else {
+			cres <- &xGot{st: "lost"}
+		}
+	}()
+	var early *xGot
 	if s.up == "Http2" {
 		select {
 		case r := <-s.h2up.reqs:
-			gotReq = h2GotTok(r.status, r.msg)
-			lastReqShow = h2show(r.status, r.msg)
+			gq = &xGot{st: r.status, h2: r.msg}
 			if r.status == "ok" {
-				answered = true
 				go r.conn.writeMsg(r.id, resp.h2)
 			}
+		case early = <-cres:
 		case <-time.After(xWait):
 		}
 	} else {
 		select {
 		case r := <-s.h1reqs:
-			gotReq = h1GotTok(r.msg, true)
-			lastReqShow = h1show(r.msg)
-			answered = true
+			gq = &xGot{st: "ok", h1: r.msg}
 			go r.conn.Write(wireH1(resp.h1, false, resp.h1chunks))
+		case early = <-cres:
 		case <-time.After(xWait):
 		}
 	}
-	// client side
-	wait := xWait
-	if !answered {
-		wait = 300 * time.Millisecond // MOSN may still answer by itself (4xx/5xx): recorded, the verdict is the request's
-	}
-	if s.down == "Http2" {
-		m, st := h2c.collect(1, wait)
-		gotResp = h2GotTok(st, m)
-		lastRespShow = h2show(st, m)
+	if early != nil {
+		gr = early
 	} else {
-		h1c.SetReadDeadline(time.Now().Add(wait))
-		m, err := readH1(bufio.NewReader(h1c), false, method == "HEAD")
-		if err == nil {
-			gotResp = h1GotTok(m, false)
+		select {
+		case gr = <-cres:
+		case <-time.After(xWait):
 		}
-		lastRespShow = h1show(m)
 	}
-	return
+	if gr.st == "ok" && stripDate(mresp, gr) {
+		c.Count(kind + ".resp.date_added")
+	}
+	if gq.st != "ok" {
+		c.Count(kind + ".req.outcome=" + strings.SplitN(gq.st, ":", 2)[0])
+	}
+	if gr.st != "ok" {
+		c.Count(kind + ".resp.outcome=" + strings.SplitN(gr.st, ":", 2)[0])
+	}
+	return gq.tok(true), gr.tok(false)
 }
